@@ -213,7 +213,7 @@ func TestC19_Corruptions(t *testing.T) {
 	check(t, "C19", 3000, func(t *rapid.T) {
 		p := wideProtocol()
 		kind := rapid.SampledFrom([]string{"request-outer", "request-inner-delta", "request-inner-signed", "request-header", "request-unexpected-type",
-			"patch", "ietf-hostile", "did", "did-string", "jws-jwk", "bytes"}).Draw(t, "target")
+			"patch", "patch-sequence", "ietf-hostile", "did", "did-string", "jws-jwk", "bytes"}).Draw(t, "target")
 		nontrivial := false
 		desc := kind
 		switch kind {
@@ -317,6 +317,38 @@ func TestC19_Corruptions(t *testing.T) {
 			}
 			nontrivial = true
 			desc = kind + "/" + action + fmt.Sprint(how)
+		case "patch-sequence":
+			// a document with members of unexpected JSON types (as an earlier ietf-json-patch may leave it, or as a caller may hand
+			// it over), an operation that reshapes a member or the whole document, then ordinary valid patches of every action
+			doc := deepCopyValue(sampleDocForPatches).(map[string]interface{})
+			for _, member := range []string{"alsoKnownAs", "publicKey", "service", "other"} {
+				switch rapid.IntRange(0, 3).Draw(t, "illTyped-"+member) {
+				case 0:
+					doc[member] = genHostileValue(t)
+				case 1:
+					if l, ok := doc[member].([]interface{}); ok {
+						doc[member] = append(append([]interface{}{}, l...), genHostileValue(t))
+					}
+				}
+			}
+			var list []interface{}
+			if rapid.IntRange(0, 2).Draw(t, "reshape") > 0 {
+				path := rapid.SampledFrom([]string{"/alsoKnownAs", "/alsoKnownAs/-", "/alsoKnownAs/0", "", "/other", "/o", "/publicKey", "/service"}).Draw(t, "reshapePath")
+				list = append(list, map[string]interface{}{"action": "ietf-json-patch", "patches": []interface{}{
+					map[string]interface{}{"op": rapid.SampledFrom([]string{"add", "replace"}).Draw(t, "reshapeOp"), "path": path, "value": genHostileValue(t)}}})
+			}
+			for i, n := 0, rapid.IntRange(1, 3).Draw(t, "typedPatches"); i < n; i++ {
+				list = append(list, genDedicatedPatch(t, rapid.SampledFrom(allActions[1:]).Draw(t, "action"), sampleDocForPatches, false))
+			}
+			runEntry(t, st, "ApplyPatches", []byte(refJCS(map[string]interface{}{"doc": doc, "patches": list})), kind)
+			// the same list as the delta of a create (hashed, so that it reaches the composer) and of an update of an existing document
+			cr := newCreate(18, entryKeys().Recovery, entryKeys().Update, list, nil, "")
+			runEntry(t, st, "ParseRequest", cr.bytes(), kind)
+			runEntry(t, st, "Apply", []byte(refJCS(map[string]interface{}{"type": "create", "request": string(cr.bytes())})), kind)
+			up := newUpdate(18, entrySuffix, entryKeys().Update, pool()[ktP256][3], list, 0, 0)
+			runEntry(t, st, "Apply", []byte(refJCS(map[string]interface{}{"type": "update", "request": string(up.bytes())})), kind)
+			nontrivial = true
+			desc = kind + refJCS(list)
 		case "ietf-hostile":
 			pv := genHostileIetfPatch(t)
 			raw := []byte(refJCS(pv))
